@@ -64,6 +64,8 @@ func c27ExtraAtoms() []string {
 		`\x01`, `\x7f`, `\x{80}`, `\x{ff}`, `\x{100}`, `\x{10FFFF}`, `\x{ad}`, `\x{2028}`, `\a`, `\f`, `\t`, `\r`, `\v`, `\n`, `\x00`,
 		`\.`, `\\`, `\+`, `\*`, `\?`, `\(`, `\)`, `\|`, `\[`, `\]`, `\{`, `\}`, `\^`, `\$`, `\-`, `-`, `]`, `}`, `{`, `,`, `:`, `=`, `<`, `#`, ` `, `\Q.*\E`, `\Qa-b\E`, `\Q]\E`, `a\-b`, `{1}`, `a{,2}`, `a{1`,
 		// literals, folding
+		// cased runes that are not letters (Nl, So, Mn) or have three/four-member fold orbits
+		`Ⅳ`, `(?i)Ⅳ`, `(?i:ⅳ)`, `(?i:Ⓐ)`, `(?i:ⓐ=)`, `(?i:=Ⓐ)`, `(?i:\x{345})`, `(?i:ǅ)`, `(?i:µ)`, `(?i:ς)`, `(?i:1)`, `(?i:Ⅳa)`,
 		`A`, `É`, `(?i)a`, `(?i)A`, `(?i:é)`, `(?i:k)`, `(?i:s)`, `(?i:ab)`, `(?i:-)`, `(?i:a-b)`, `(?i)[a-c]`, `(?i)[^a]`, `(?i:a)b`, `a(?i:b)`, `(?i:a(?-i:b))`, `(?i)a(?-i)b`,
 		// dots and flags
 		`.`, `(?s).`, `(?s:.)`, `(?-s:.)`, `(?s:.)*`, `(?m)^`, `(?m)$`, `(?U)a+`, `(?U)a+?`, `(?U:a*)b`, `(?sm).$`, `(?i)(?s).`, `(?is:a.)`,
@@ -381,7 +383,8 @@ func c27Subjects(thorough bool) (sigma []string, maxLen int, all []*c27Subject, 
 	strs := gen.AllStrings(sigma, maxLen)
 	// fixed probes so that atoms outside the alphabet are not vacuous
 	fixed := []string{"]", "É", "k", "K", "K", "s", "ſ", ".", "\\", "\x00", "\x7f", "\u0080", "­", "ÿ", "Ā", " ", "\U0010FFFF", " ", "a-b", ".*", "aa]", "^a", "a$",
-		"{1}", "a{,2}", "a{1", "\t", "\r", "\v", "\f", "\a", "+", "*", "?", "(", ")", "|", "[", "{", "}", "^", "$", ",", ":", "=", "<", "#", "ë", "ê", "1", "_", "aaaa", "abab", "abcabd", "a b", "A-É", "éé\né", "aaaaa", "a\na\na"}
+		"{1}", "a{,2}", "a{1", "\t", "\r", "\v", "\f", "\a", "+", "*", "?", "(", ")", "|", "[", "{", "}", "^", "$", ",", ":", "=", "<", "#", "ë", "ê", "1", "_", "aaaa", "abab", "abcabd", "a b", "A-É", "éé\né", "aaaaa", "a\na\na",
+		"Ⅳ", "ⅳ", "Ⓐ", "ⓐ", "ⓐ=", "=Ⓐ", "Ⓐ=", "\u0345", "ι", "Ι", "\u1fbe", "ǅ", "Ǆ", "ǆ", "µ", "μ", "Μ", "ς", "σ", "Σ", "ⅳa", "ⅣA", "Ⅳa"}
 	seen := map[string]bool{}
 	for _, s := range strs {
 		seen[s] = true
